@@ -167,6 +167,31 @@ CLAIMED.update({
             "DESIGN.md 5 C25"),
 })
 
+CLAIMED.update({
+    "C26": ("model_checking",
+            "Execution.tla transcribes the execution algorithm with apollo's documented choices as named operators; response invariants "
+            "are checked on every enumerated world; 20 operations x all worlds over per-field outcome pools are executed on the real "
+            "executor with resolvers built from the world and compared exactly (data) / as multisets (error paths); random operations "
+            "and worlds are recomputed by TLC.",
+            "One fixed schema family; apollo's choices (list item error nullifies the list, siblings aborted on propagation) are part of the reference.",
+            "TLA+ reference executor evaluated by TLC; exhaustive bounded worlds replayed + TLC trace validation",
+            "DESIGN.md 5 C26"),
+    "C27": ("model_checking",
+            "AsyncExec.tla (Poll / Wake over pending counts) model-checked for every pending assignment incl. liveness; each assignment is a "
+            "schedule forced on execute_async through an executor that polls only after a wake, with pending-counting futures and "
+            "streams; response, resolver order, single live future and absence of hangs compared with execute_sync; event traces "
+            "validated by TLC.",
+            "The harness executor and futures are the only scheduler; list item streams wake FIFO.",
+            "TLA+ poll/wake state machine; model schedules forced on the real async executor; TLC trace validation",
+            "DESIGN.md 5 C27"),
+    "C28": ("model_checking",
+            "Coercion.tla transcribes CoerceVariableValues with the documented scalar rules; every (type, default, provided value) of "
+            "the bounded universe is replayed through coerce_variable_values; random recorded coercions are recomputed by TLC.",
+            "Numbers are symbolic tags; the 2^53 Float bound is not exercised.",
+            "TLA+ reference evaluated by TLC; exhaustive bounded enumeration replayed + TLC trace validation",
+            "DESIGN.md 5 C28"),
+})
+
 NOT_APPLICABLE = {}
 
 ALL = ["C%02d" % i for i in range(1, 34)]
